@@ -565,6 +565,8 @@ def gen_scenario(rng, nops=None, profile=None):
             break
     if sc is None:
         sc = gen_config(rng, profile)
+    # which of the two call sites of start_watchers in Arbiter.start() the scenario goes through (circusd: own loop)
+    sc["own_loop"] = rng.random() < 0.5
     sc["ops"] = []
     nops = nops or rng.choice([6, 10, 16, 24, 40])
     nops = max(nops, len(scripted) + 4) if scripted else nops
